@@ -114,8 +114,16 @@ def check(repo, tier):
                 # structure: U diag(1/s) W
                 recs = reciprocal_sources(last)
                 svals = [r for r in recs if l2rules._is_singular_values(r.tags['reciprocal_of'])]
-                if len(svals) != 1:
-                    bad.append(f'the last core of eigentensor {k} contains {len(svals)} inverse(s) of the singular values instead of exactly one')
+                # (the inverse may also be written as a division by s: count the diag(1/s) factors of the matrix expression of the core)
+                from . import mx
+                mlast = mx.canon(A.unfolding_mx(last, last.shape[0])) if last.ndim >= 2 else ()
+                n_inv = max(len(svals), sum(1 for f_ in mlast if f_[0] == 'Sinv'))
+                if n_inv != 1:
+                    if n_inv == 0 and any(f_[0] == 'src' for f_ in mlast) and not any(f_[0] == 'S' for f_ in mlast):
+                        raise AnalysisError(f'{scen}: the way the inverse singular values enter the last core of eigentensor {k} is not recognised ({mx.show(mlast)})')
+                    bad.append(f'the last core of eigentensor {k} contains {n_inv} inverse(s) of the singular values instead of exactly one')
+                elif not svals:
+                    pass
                 else:
                     uid = svals[0].tags['reciprocal_of'].tags['prov']['svd']
                     has_u = any(isinstance(a.tags.get('prov'), dict) and a.tags['prov'].get('svd') == uid and a.tags['prov'].get('role') == 'u' for a in anc.values())
@@ -147,6 +155,9 @@ def check(repo, tier):
                 src = key.tags.get('abs_of')
                 ex = src.tags.get('expr') if isinstance(src, Arr) else None
                 okk = bool(ex and ex[0] == 'sub' and isinstance(ex[1][0], Arr) and ex[1][0].origin in ('eig.w',) and ex[1][1] == 1)
+                if not okk and not (ex and ex[0] in ('sub', 'add') and isinstance(ex[1][0], Arr)):
+                    # not of the form |something -/+ constant|: an equivalent way of writing the distance (np.hypot, sqrt of squares ...) cannot be told from a wrong one
+                    raise AnalysisError(f'{scen}: the sort key of the eigenpairs is computed in a way the analysis does not recognise')
                 if not okk:
                     bad.append('the sort key is not |lambda - 1| of the raw eigenvalues of the reduced matrix' + (f' (it is computed from {ex[1][0].origin})' if ex and isinstance(ex[1][0], Arr) else ''))
             run.oblige('D2', (entry, scen, 'order'), not bad)
